@@ -37,7 +37,7 @@ theorem parse_cut_at {rs rest : List Record} {r : Record} (h : AllWF rs) (hr : r
   have e : (encAll (rs ++ [r] ++ rest)).take ((encAll rs).length + j)
       = encAll rs ++ (encRecord r).take j := by
     rw [encAll_appendP, encAll_appendP, List.append_assoc]
-    simp only [encAll_cons, encAll_nil, List.append_nil]
+    simp only [encAll_consP, encAll_nilP, List.append_nil]
     rw [List.take_length_add_append, List.take_append_of_le_length (Nat.le_of_lt hj)]
   rw [e]
   apply parse_cut h hr
